@@ -46,7 +46,7 @@ class ScopeMetrics:
             if scope
             else f"[{self.trace_id}] [{self.identifier}]"
         )
-        self._logger: Logger = logger or getLogger(name=scope)
+        self._logger: Logger = logger if logger is not None else getLogger(name=scope)
         # a scope created after its parent has already completed can't be tracked by it anymore
         self._parent: Self | None = parent if parent and not parent._completed.done() else None
         self._metrics: dict[type[State], State] = {}
@@ -256,7 +256,7 @@ class MetricsContext:
             ScopeMetrics(
                 trace_id=trace_id or current.trace_id,
                 scope=name,
-                logger=logger or current._logger,  # pyright: ignore[reportPrivateUsage]
+                logger=logger if logger is not None else current._logger,  # pyright: ignore[reportPrivateUsage]
                 parent=current,
                 completion=completion,
             )
